@@ -570,6 +570,12 @@ var defPool = []string{
 	`{{define "X"}}<a href="j{{.A}}">x</a>{{end}}{{define "Y"}}<a href="{{.A}}">y</a>{{end}}{{define "Z"}}<a href="&#106;ava{{.A}}">z</a>{{end}}m`,
 	`{{define "X"}}<b {{if .T}}title{{else}}onclick{{end}}="{{.A}}">x</b>{{end}}{{define "Y"}}<b title="{{.A}}">y</b>{{end}}m`,
 	`{{define "X"}}{{if .T}}<script>{{else}}<p>{{end}}{{.A}}{{end}}{{define "Y"}}<p>{{.A}}</p>{{end}}m`,
+	// a refused member and a healthy one that reach the same helper from the same attribute context; templates
+	// that end inside a comment, a tag, an attribute value, a script (every non-text end state)
+	`{{define "h"}}{{.A}}{{end}}{{define "X"}}<b title="{{template "h" .}}">x</b><i {{end}}{{define "Y"}}<b title="{{template "h" .}}">y</b>{{end}}{{define "Z"}}<ul><li title="{{template "h" .}}">z</li></ul>{{end}}m`,
+	`{{define "X"}}<b>ok</b><!-- open{{end}}{{define "Y"}}{{template "X" .}}{{end}}{{define "Z"}}<p>{{.A}}</p>{{end}}<i>m</i><!--`,
+	`{{define "X"}}<p>{{.A}}</p><!-- c {{end}}{{define "Y"}}<script>var a = 1;{{end}}{{define "Z"}}<textarea>{{.A}}{{end}}<title>t`,
+	`{{define "X"}}<b>{{. | html}}</b>{{end}}{{define "Y"}}<div>{{.H}}</div>{{end}}{{define "Z"}}<p>{{.H | html}}</p><div>{{.H}}</div>{{end}}<i>{{.H}}</i>`,
 	// static text that only the CSP-compatible mode refuses; a key the data does not have (Option missingkey=...)
 	`{{define "X"}}<a onclick="f()">{{.A}}</a>{{end}}{{define "Y"}}<p>{{.A}}</p>{{end}}<a href="javascript:void(0)">{{.B}}</a>`,
 	`{{define "X"}}<p>{{.Nope}}</p>{{end}}{{define "Y"}}<i>{{.A}}</i>{{end}}<b>{{.Nope}}{{.B}}</b>`,
